@@ -5,6 +5,7 @@ import (
 	"context"
 	"errors"
 	"fmt"
+	"path"
 	"regexp"
 	"runtime/debug"
 	"strings"
@@ -216,7 +217,11 @@ func Execute(t *testing.T, w *Workload, picker core.Picker, maxSteps int) *Outco
 		}()
 		p := parse.NewParser()
 		p.Set(parse.Settings{MaxImportDepth: w.MaxDepth})
-		mod, err = p.Parse(w.Files[0].Path, rd)
+		arg := w.Files[0].Path
+		if w.RootArg != "" {
+			arg = w.RootArg
+		}
+		mod, err = p.Parse(arg, rd)
 	}
 	current.Store(s)
 	o.Sched = s.Run(t, root, picker, maxSteps)
@@ -255,17 +260,26 @@ func Execute(t *testing.T, w *Workload, picker core.Picker, maxSteps int) *Outco
 			app := mod.Apps[name]
 			if name == "Shared" {
 				for _, sc := range app.SourceContexts {
-					o.Order = append(o.Order, reAt.ReplaceAllString(sc.File, ""))
+					o.Order = append(o.Order, reAt.ReplaceAllString(plainName(sc.File), ""))
 				}
 			} else if reFApp.MatchString(name) {
 				for _, sc := range app.SourceContexts {
-					o.SrcCtx = append(o.SrcCtx, name+" "+sc.File)
+					o.SrcCtx = append(o.SrcCtx, name+" "+plainName(sc.File))
 				}
 			}
 		}
 	}
 	analyseLog(w, o)
 	return o
+}
+
+// plainName drops a leading "/" or "./" of a local file name: how the module argument
+// was spelled is not part of what the property fixes.
+func plainName(f string) string {
+	if strings.HasPrefix(f, "//") {
+		return f
+	}
+	return strings.TrimPrefix(path.Clean(f), "/")
 }
 
 // analyseLog derives the depth at which each file was claimed from the claim notes
@@ -276,7 +290,7 @@ func analyseLog(w *Workload, o *Outcome) {
 			if k := strings.Index(rest, " "); k > 0 {
 				d := 0
 				fmt.Sscanf(rest[:k], "%d", &d)
-				o.ClaimDepth[stripVersion(rest[k+1:])] = d
+				o.ClaimDepth[plainName(stripVersion(rest[k+1:]))] = d
 			}
 		}
 	}
